@@ -327,6 +327,28 @@ def F5():
     return 0
 
 
+def F10():
+    """Clip scale from local shards only (GPT-NeoX family, model-parallel size > 1).  Uses the harness of the seeded
+    change C11-1 (unchanged library code): a 2-layer Megatron-style MLP on dp x mp gloo ranks against a pure-torch
+    unsharded reference, this time with KL clipping active."""
+    import importlib.util
+    spec = importlib.util.spec_from_file_location('c11demo', '/verif/seeded/C11-1/demo.py')
+    d = importlib.util.module_from_spec(spec)
+    spec.loader.exec_module(d)
+    rc = 0
+    for title, cfg in (('dp=2 mp=1 (control)', dict(d.BASE_CFG, dp=2, mp=1, kl_clip=0.001)),
+                       ('dp=1 mp=2', dict(d.BASE_CFG, dp=1, mp=2, kl_clip=0.001)),
+                       ('dp=2 mp=2', dict(d.BASE_CFG, dp=2, mp=2, kl_clip=0.001))):
+        bad = d.run_config(cfg)
+        print(f'{title}: {len(bad)} deviation(s) from the unsharded reference with clipping')
+        for line in bad[:2]:
+            print('    ' + line)
+        if bad and 'control' not in title:
+            rc = 1
+    print('REPRODUCED F10: clipped gradients of the sharded run differ from the unsharded layer' if rc else 'F10 absent')
+    return rc
+
+
 if __name__ == '__main__':
     repo = '/repo'
     if '--repo' in sys.argv:
